@@ -492,6 +492,11 @@ def stream_violations(ps, interrupted):
     idx = [PHASE_ORDER.index(p) for p in opened]
     if idx != sorted(idx) or len(set(idx)) != len(idx):
         bad.append(("phase-order", f"phases opened out of order or twice: {opened}"))
+    # a run that is neither interrupted nor ended by a fatal error goes through every phase of the plan: a phase that is
+    # disabled, has nothing to do or comes after the failure limit is still opened and closed (as skipped)
+    if not interrupted and not any(e["k"] in ("Interrupted", "FatalError") for e in ps) and ps and ps[-1]["k"] == "EngineFinished" \
+            and (opened != PHASE_ORDER or closed != PHASE_ORDER):
+        bad.append(("phases-not-all-opened-and-closed", f"run not interrupted, but the phases opened are {opened} and closed {closed}"))
     return bad
 
 
